@@ -145,6 +145,18 @@ def _embeddings(name, lang, code, top_only):
     if not top_only:
         out.append(("filler-before", filler + "\n" + code, [fl + 1]))
     canon = "collection-pipeline" if name == "pipeline" else name
+    if lang in ("typescript", "javascript") and canon in PATTERN and not top_only and not re.search(r"^\s*(import|export)\b", code, flags=re.M):
+        ind2 = lambda c_: "\n".join(("  " + ln if ln.strip() else ln) for ln in c_.split("\n"))  # noqa: E731
+        out.append(("in-function", "function wrapperFn() {\n" + ind2(code) + "\n}\n", [1]))
+        out.append(("in-const-arrow", "const wrapperArrow = () => {\n" + ind2(code) + "\n};\n", [1]))
+        out.append(("in-object-method", "const holder = {\n  run: function () {\n" + ind2(ind2(code)) + "\n  },\n};\n", [2]))
+        renamed = code
+        for a, b in (("result", "tally7"), ("html", "markup7"), ("output", "emitted7"), ("message", "notice7")):
+            renamed = re.sub(rf"\b{a}\b", b, renamed)
+        if renamed != code:
+            out.append(("renamed-locals", renamed, [0]))
+            out.append(("renamed-locals-in-const-arrow", "const wrapperArrow = () => {\n" + ind2(renamed) + "\n};\n", [1]))
+        return out
     if lang != "python" or canon not in PATTERN or top_only:
         return out
     out.append(("in-function", "def wrapper_fn():\n" + _indent(code, 1), [1]))
@@ -174,6 +186,7 @@ def _embeddings(name, lang, code, top_only):
     out.append(("three-times", code + "\n\n" + c2 + "\n\n" + c3, [0, n + 2, 2 * (n + 2)]))
     # the same example a second time under the SAME names: at module level and inside a function
     out.append(("same-names-in-function", code + "\n\ndef wrapper_fn():\n" + _indent(code, 1), [0, n + 3]))
+    out.append(("same-names-in-two-functions", "def make_first():\n" + _indent(code, 1) + "\n\n\ndef make_second():\n" + _indent(code, 1), [1, n + 5]))
     nested = _nest_in_own_loop(code)
     if nested:
         out.append(("nested-in-own-loop", nested[0], [0, nested[1]]))
